@@ -464,6 +464,26 @@ def main():
         for o in obligations_broken:
             log("OBLIGATION BROKEN: %s\n%s" % o)
 
+    if fallback is not None and TIE and any("Translated" in n for n, _ in changed) and \
+            not [v for v in violations if not v.endswith("no-failing-input-found")]:
+        # a theorem about translated code broke and the correspondence run found no failing input among the states it can
+        # allocate: search the translation itself (current vs the one the theorems are about) on boundary-biased
+        # arguments - INT_MAX / SIZE_MAX-adjacent sizes no harness can allocate (tools/boundary_search.py)
+        try:
+            import boundary_search
+            hits, binfo = boundary_search.search(TIE, seed=seed)
+        except Exception as e:
+            hits, binfo = [], {"skipped_reason": repr(e)[:300]}
+        notes.append("boundary search on the translated code: %s" % json.dumps(binfo)[:600])
+        if hits:
+            h = hits[0]
+            p = write_obligation_replay(prop, "translated code of %s (Generated/Translated.lean, regenerated from the current source) fails at a "
+                                        "boundary input; theorem(s) no longer checking: %s" % (h["function"], fallback["regenerated_model"]),
+                                        json.dumps({"function": h["function"], "parameters": h["params"], "arguments": h["args"], "failure": h["what"],
+                                                    "further_hits": hits[1:8],
+                                                    "replay": "python3 tools/boundary_search.py " + " ".join(TIE)}, indent=1))
+            violations.append("VIOLATION property=%s replay=%s" % (prop, p))
+            log("BOUNDARY SEARCH: %s(%s): %s" % (h["function"], h["args"], h["what"]))
     if fallback is not None and not violations:
         print("NOTE property=%s the facts extracted from the current source differ from the reference facts (%s); the theorems were "
               "re-checked for the reference model and the implementation corresponds to it on all %d cases explored"
